@@ -112,6 +112,26 @@ func genC01(t *rapid.T) caseC01 {
 		g.SetType(n, ty)
 	}
 	e := g.Expr("?", cfg.ExprDepth)
+	if gen.Chance(t, 2, "longoperand") {
+		// a short-circuit operator over an operand of hundreds or thousands
+		// of bytes of code (jump distances beyond one byte), skipped or taken
+		op := gen.Pick(t, "scop", []string{"and", "or"})
+		e = gen.JumpLimitExpr(op, gen.Uniform(t, 5, "prefix"), gen.Pick(t, "terms", []int{100, 127, 128, 129, 200, 1000, 5000}))
+		if gen.Bool(t, "taken") {
+			// make the left operand let the right one be evaluated
+			if op == "and" {
+				e.A = &gen.Expr{K: "int", T: "7"}
+			} else {
+				e.A = &gen.Expr{K: "nil"}
+			}
+		} else if gen.Bool(t, "valueleft") {
+			if op == "and" {
+				e.A = &gen.Expr{K: "int", T: "0"}
+			} else {
+				e.A = &gen.Expr{K: "int", T: "1000"}
+			}
+		}
+	}
 	mode := gen.Pick(t, "mode", []string{"print", "var", "field"})
 	switch mode {
 	case "print":
